@@ -193,9 +193,6 @@ Print Assumptions C14_count_nil_refuted.
 Theorem C14_substitute_count_refuted : refutes w_subst_count = true /\ refutes w_subst_count0 = true /\ refutes w_subst_count_neg = true.
 Proof. exact substitute_count_refuted. Qed.
 Print Assumptions C14_substitute_count_refuted.
-Theorem C14_count_utf8_refuted : refutes w_count_utf8 = true.
-Proof. exact count_utf8_refuted. Qed.
-Print Assumptions C14_count_utf8_refuted.
 Theorem C14_assoc_refuted : refutes w_assoc_nil = true /\ refutes w_assoc_order = true.
 Proof. exact assoc_refuted. Qed.
 Print Assumptions C14_assoc_refuted.
@@ -225,6 +222,12 @@ Print Assumptions C14_reduce_refuted.
 Theorem C14_remove_duplicates_refuted : refutes w_dups_ne = true /\ refutes w_dups_from_end = true.
 Proof. exact remove_duplicates_refuted. Qed.
 Print Assumptions C14_remove_duplicates_refuted.
+
+(* (6') repaired defects (repo_fixes/C14-n.patch): each former refutation witness is now inside the guard, and
+   the model of the repaired code and the specification both give the listed value *)
+Theorem C14_repaired_witnesses : forallb repaired_ok repaired_witnesses = true.
+Proof. exact repaired_all. Qed.
+Print Assumptions C14_repaired_witnesses.
 
 (* (7) the guard is satisfiable with every keyword in play and non-trivial results *)
 Theorem C14_guard_nonvacuous : forallb in_domain ex_calls = true /\
